@@ -94,7 +94,7 @@ class SemiMarkovDecisionProcess:
     ) -> Sequence[SimulationResult]:
         if self.seed is None:
             self.seed = random.randint(0, 2**32)
-        seed = obj_seed((s, a, self.seed))
+        seed = obj_seed((s, getattr(a, 'name', a), self.seed))
         rng = random.Random(seed)
         simulations = []
         for _ in range(self.n_option_simulations):
